@@ -1,0 +1,22 @@
+//go:build verif
+
+package attachment
+
+import (
+	"net"
+
+	"github.com/cuteLittleDevil/go-jt808/shared/consts"
+)
+
+// Verification accessors (compiled only with -tags verif; add-only).
+// VerifRun runs one attachment connection on any net.Conn: with net.Pipe one Write is
+// exactly one Read, which gives exact control over segmentation through the real run loop.
+func VerifRun(conn net.Conn, activeSafetyType consts.ActiveSafetyType, fileEventer FileEventer) {
+	newConnection(conn, activeSafetyType, nil, fileEventer).run()
+}
+
+// VerifNewDefaultFileEvent returns the default file handler (writes under the working directory).
+func VerifNewDefaultFileEvent() FileEventer { return newFileEvent() }
+
+// VerifHistoryLen reports the number of buffered, not yet consumed bytes.
+func (p *PackageProgress) VerifHistoryLen() int { return len(p.historyData) }
